@@ -124,6 +124,15 @@ func c06Check(c *C06Case) c06Verdict {
 			exprLine(minSrc), iMin.Class, clip(string(iMin.Stdout)), exprLine(fullSrc), iFull.Class, clip(string(iFull.Stdout)))
 		return v
 	}
+	// the same minimal token sequence with nothing between tokens that cannot fuse: a sign
+	// glued to a number, a dot glued to a literal, operators glued to each other
+	tightSrc := ast.Render(prog, ast.Minimal).Join(gen.Tight{}).Src
+	iTight := run.InProc(tightSrc, files, nil, run.Opts{Budget: implBudget})
+	if !sameOutcome(iTight, iFull) {
+		v.Fail = fmt.Sprintf("the minimal rendering written without blanks behaves differently\n tight: %s\n  -> %s %q\n full:  %s\n  -> %s %q",
+			exprLine(tightSrc), iTight.Class, clip(string(iTight.Stdout)), exprLine(fullSrc), iFull.Class, clip(string(iFull.Stdout)))
+		return v
+	}
 	if c.Red != nil {
 		redSrc := ast.SourceMin(c06ProgramCtx(c.Red, c.Ctx))
 		iRed := run.InProc(redSrc, files, nil, run.Opts{Budget: implBudget})
